@@ -1,453 +1,206 @@
 /-
 C20 – GRANDPA round state follows the protocol definitions.
 
-Model: `Gossamer/Model/C20.lean` (Round over the uncompressed vote graph, mirrors round.go / context.go /
-bitfield.go; the compressed vote_graph.go is tied to it by the correspondence run only).
-Spec:  `Gossamer/Lib/C20Spec.lean` (paper definitions over the *set* of imported signed votes).
+Model: `Gossamer/Model/C20.lean` – `Round` (round.go, context.go, bitfield.go) over the UNCOMPRESSED vote graph
+       (one cumulative vote mask per block).  The compressed representation of vote_graph.go (entries with
+       ancestor edges, `introduceBranch`, `ghostFindMergePoint`) is not modelled; it is tied to this layer by
+       the correspondence run only.
+Spec:  `Gossamer/Lib/C20Spec.lean` – the GRANDPA paper definitions as executable functions of the SET of
+       imported signed votes: `weightFor`, `superm`, `specGhost` (g), `specFinalized`, `possible`,
+       `specEstimate` (E), `specCompletable`.  They are what the driver prints as `spec=`.
+       `C20_spec_*` below state their relational meaning (highest block with …).
 
-All theorems quantify over every well-formed block tree `t`, every weighted voter list `ws` with positive
-total weight, and every import history `ops` (any order, duplicates, double and triple votes, votes of
-ids outside the voter set).  `run t ws ops` is the state after importing `ops` one by one.
+All theorems quantify over every well-formed block tree `t`, every weighted voter list `ws` with positive total
+weight, and every import history `ops` (any order, duplicates, double/triple votes, votes of ids outside the
+voter set).  `run t ws ops` is the round after importing `ops` one by one (incremental, memoised).
 
-Hypotheses and why they are there
-* `ValidOps t ops`        – every target is a block of the tree (a target outside the chain makes the real
+Hypotheses of the `_partial` theorems = exactly the excluded regions:
+* `ValidOps t ops`        – every target is a block of the tree.  (A target outside the chain makes the real
                             import return an error after the tracker was already updated; modelled and tied by
-                            the harness, but the paper has no such votes).
+                            the harness; the paper has no such votes.)
 * `tolerant ws ops false` – at most f = total − threshold prevote weight equivocates: the domain on which the
-                            paper defines g(S); outside it two siblings can both have a supermajority and the
-                            result depends on the import order (`C20_ghost_intolerant_counterexample`).
-* `tolerant ws ops true`  – same for precommits, needed for estimate/completable only (outside it Go's
-                            `toleratedEquivocations - currentEquivocations` wraps around).
-* `NoGap ws ops`          – precommit weight ≥ threshold or ≤ 2f.  In between (possible only when total ≠ 3f+1)
-                            the real code short-cuts `estimate = prevote GHOST, completable = false`, which is
-                            NOT the paper definition: known finding `estimate-shortcut-below-threshold`,
+                            paper defines g(S).  Outside it two siblings can both have a supermajority and the
+                            round's answer depends on the import order: `C20_ghost_intolerant_counterexample`.
+* `tolerant ws ops true`  – same for precommits; needed for estimate/completable only.  Outside it Go's unsigned
+                            `toleratedEquivocations - currentEquivocations` wraps around:
+                            `C20_estimate_intolerant_counterexample`.
+* `NoGap ws ops`          – precommit weight ≥ threshold or ≤ 2f (always true when total = 3f+1).  In between the
+                            real code short-cuts `estimate = prevote GHOST`, `completable = false`, which is NOT the
+                            paper definition: known finding `estimate-shortcut-below-threshold`,
                             `C20_estimate_shortcut_counterexample`.
 * `2 * total ws < 2^64`   – no uint64 overflow in `possibleToPrecommit`.
+`C20_hypotheses_satisfiable` exhibits a non-trivial history satisfying all of them.
 -/
-import Gossamer.Lib.C20Possible
+import Gossamer.Lib.C20SpecEq
 namespace Gossamer.C20
 
 variable {t : Tree} {ws : List Nat}
 
 /-! ## bookkeeping: every history, no side condition -/
 
-/-- The weight the round computes for block `B` in a phase (`context.Weight` of the cumulative vote node,
-equivocation bits merged in) is the paper's weight: voters with a vote for a block ≥ B plus ALL equivocators –
-for every block, also blocks nobody voted for.  Holds for every import history (any order, duplicates,
-any number of double votes, non-voters, invalid targets). -/
+/-- The weight the round computes for block `B` in a phase (`context.Weight` of the cumulative vote node with the
+equivocation bits merged in) is the paper's weight – voters with a vote for a block ≥ B plus ALL equivocators –
+for every block, also blocks nobody voted for; `currentWeight` is the weight of the voters that voted and
+`EquivocationWeight` the weight of the voters with two different signed votes.  Every import history. -/
 theorem C20_weight_eq_spec (t : Tree) (ws : List Nat) (ops : List Op) (ph : Bool) (B : Nat) :
     nodeWeight ws (run t ws ops).eqv ((run t ws ops).cum B) ph = weightFor t ws ops ph B ∧
     (run t ws ops).cur ph = voteWeight ws ops ph ∧
     maskWeight ws (run t ws ops).eqv (phN ph) = equivWeight ws ops ph :=
-  ⟨nodeWeight_run t ws ops ph B, cur_run t ws ops ph, eqvWeight_run t ws ops ph⟩
+  rel_weight_eq_spec t ws ops ph B
 
-/-- An equivocator's weight counts towards every block: the weight of any block `B` (in the tree or not,
-voted for or not) is at least the weight of all equivocators of the phase, and a voter of the set that
-equivocated has its bit in the mask that is weighed for `B`. -/
+/-- An equivocator's weight counts towards every block: the weight of any block `B` (in the tree or not, voted
+for or not) is at least the weight of all equivocators of the phase, and a voter of the set that equivocated has
+its bit in the mask that is weighed for `B`. -/
 theorem C20_equivocator_counts_everywhere (t : Tree) (ws : List Nat) (ops : List Op) (ph : Bool) (B : Nat) :
     equivWeight ws ops ph ≤ nodeWeight ws (run t ws ops).eqv ((run t ws ops).cum B) ph ∧
     ∀ v, v < ws.length → isEquiv ops ph v = true →
-      ((run t ws ops).cum B ||| (run t ws ops).eqv).testBit (bitPos v (phN ph)) = true := by
-  refine ⟨?_, ?_⟩
-  · rw [nodeWeight_run]; exact equivWeight_le_weightFor t ws ops ph B
-  · intro v hv he
-    rw [Nat.testBit_or, (bookInv_run t ws ops).eqv]
-    simp [hv, he]
+      ((run t ws ops).cum B ||| (run t ws ops).eqv).testBit (bitPos v (phN ph)) = true :=
+  rel_equivocator_counts_everywhere t ws ops ph B
 
 /-- Import order, repetitions and multiplicities do not matter for the bookkeeping: after importing any
-permutation of the same votes the current weights, the equivocation bitfield and the weight of every block
-in both phases are the same. -/
+permutation of the same votes the current weights, the equivocation bitfield and the weight of every block in
+both phases are the same.  (The trackers and the per-block bits themselves DO depend on the order – they remember
+a voter's first vote – which is why the statement is about weights.) -/
 theorem C20_import_order_independent (t : Tree) (ws : List Nat) {ops ops' : List Op} (hp : ops.Perm ops') :
     (∀ ph, (run t ws ops).cur ph = (run t ws ops').cur ph) ∧
     (run t ws ops).eqv = (run t ws ops').eqv ∧
     (∀ ph B, nodeWeight ws (run t ws ops).eqv ((run t ws ops).cum B) ph
-           = nodeWeight ws (run t ws ops').eqv ((run t ws ops').cum B) ph) := by
-  refine ⟨?_, ?_, ?_⟩
-  · intro ph
-    rw [cur_run, cur_run]
-    unfold voteWeight
-    exact wsum_congr (fun v _ => hasVote_perm hp ph v)
-  · apply Nat.eq_of_testBit_eq
-    intro i
-    obtain ⟨v, ph, rfl⟩ := pos_as_bitPos i
-    rw [(bookInv_run t ws ops).eqv, (bookInv_run t ws ops').eqv, isEquiv_perm hp]
-  · intro ph B
-    rw [nodeWeight_run, nodeWeight_run]
-    exact weightFor_perm t ws hp ph B
+           = nodeWeight ws (run t ws ops').eqv ((run t ws ops').cum B) ph) :=
+  rel_import_order_independent t ws hp
 
-/-! ## prevote GHOST -/
+/-! ## what the executable specification means (paper wording) -/
 
-/-- The memoised prevote GHOST of the round is g(prevotes) of the paper: it has a prevote supermajority and
-every block with one is an ancestor-or-equal of it (hence it has the highest block number); it is `none`
-exactly when no block has a supermajority.  Incremental computation from the memoised ghost included.
+/-- `specGhost` is g(S): it has a supermajority, every block with a supermajority is an ancestor-or-equal of it,
+and it has the highest block number among them; `none` iff no block has a supermajority. -/
+theorem C20_spec_ghost_meaning (h : t.WF) (h0 : 0 < total ws) (ops : List Op) (ph : Bool)
+    (htol : tolerant ws ops ph = true) :
+    IsGhost t ws ops ph (specGhost t ws ops ph) ∧
+    ∀ g, specGhost t ws ops ph = some g → ∀ B, superm t ws ops ph B = true → depth t B ≤ depth t g := by
+  have hg := specGhost_isGhost h h0 ops ph htol
+  refine ⟨hg, ?_⟩
+  intro g hgs B hB
+  rw [hgs] at hg
+  exact rel_ghost_highest_number h hg B hB
 
-Full statement (every vote set) is false: for intolerant prevote sets g is not unique and the memo makes
-the result depend on the import order – see `C20_ghost_intolerant_counterexample`. -/
+/-- `specFinalized` is the highest block with a supermajority of both prevotes and precommits;
+`specEstimate` is the deepest block on the chain of g(prevotes) for which a precommit supermajority is possible;
+`specCompletable` says: E is defined and (E ≠ g, or no child of g – in the tree or not yet seen – is possible). -/
+theorem C20_spec_meaning (h : t.WF) (h0 : 0 < total ws) (ops : List Op)
+    (htol : tolerant ws ops false = true) :
+    IsFinalized t ws ops (specFinalized t ws ops) ∧
+    IsEstimate t ws ops (specGhost t ws ops false) (specEstimate t ws ops) ∧
+    (specCompletable t ws ops = true ↔
+      SpecCompletable t ws ops (specGhost t ws ops false) (specEstimate t ws ops)) :=
+  ⟨specFinalized_isFinalized h h0 ops htol, specEstimate_isEstimate h h0 ops htol, specCompletable_iff t ws ops⟩
+
+/-! ## the round state equals the paper definitions -/
+
+/-- The memoised prevote GHOST (computed incrementally, restarting from the previous ghost) is g(prevotes).
+Full statement (no tolerance hypothesis) is false: `C20_ghost_intolerant_counterexample`. -/
 theorem C20_ghost_eq_spec_partial (h : t.WF) (h0 : 0 < total ws) (ops : List Op)
     (hv : ValidOps t ops) (htol : tolerant ws ops false = true) :
-    IsGhost t ws ops false (run t ws ops).ghost := ghost_run h h0 ops hv htol
+    (run t ws ops).ghost = specGhost t ws ops false :=
+  IsGhost_unique h (rel_ghost_eq_spec_partial h h0 ops hv htol) (specGhost_isGhost h h0 ops false htol)
 
-/-- `Round.PrecommitGHOST()` called on the state after `ops` (whatever was memoised by earlier calls that
-returned a block with a precommit supermajority, or nothing) returns g(precommits). -/
+/-- `Round.PrecommitGHOST()` on the state after `ops` – whatever an earlier call memoised (a block that had a
+precommit supermajority, or nothing) – returns g(precommits). -/
 theorem C20_precommit_ghost_eq_spec_partial (h : t.WF) (h0 : 0 < total ws) (ops : List Op)
     (htol : tolerant ws ops true = true) (memo : Option Nat)
     (hmemo : ∀ m, memo = some m → superm t ws ops true m = true) :
-    IsGhost t ws ops true
-      (precommitGhost t ws { run t ws ops with pcGhost := memo }).pcGhost := by
-  unfold precommitGhost
-  simp only
-  split
-  · exact findGhost_isGhost h h0 htol memo hmemo
-  · rename_i hlt
-    have hlt' : voteWeight ws ops true < threshold (total ws) := by
-      rw [← cur_run t ws]; omega
-    have hno := superm_false_of_cur t ws ops true hlt'
-    cases hm : memo with
-    | none => exact hno
-    | some m => have := hmemo m hm; rw [hno m] at this; exact Bool.noConfusion this
+    (precommitGhost t ws { run t ws ops with pcGhost := memo }).pcGhost = specGhost t ws ops true :=
+  IsGhost_unique h (rel_precommit_ghost_eq_spec_partial h h0 ops htol memo hmemo)
+    (specGhost_isGhost h h0 ops true htol)
 
-/-- the GHOST has the highest block number among the blocks with a supermajority (the paper's wording) -/
-theorem C20_ghost_highest_number (h : t.WF) {ops : List Op} {ph : Bool} {g : Nat}
-    (hg : IsGhost t ws ops ph (some g)) (B : Nat) (hB : superm t ws ops ph B = true) :
-    depth t B ≤ depth t g := by
-  unfold depth
-  by_cases hne : B = g
-  · subst hne; exact Nat.le_refl _
-  · exact Nat.le_of_lt (Tree.depth_lt h (hg.2 B hB) hne)
-
-/-! ## finalized -/
-
-/-- finalized block of the paper: the highest block with a supermajority of both prevotes and precommits -/
-def IsFinalized (t : Tree) (ws : List Nat) (ops : List Op) : Option Nat → Prop
-  | none => ∀ B, superm t ws ops false B = true → superm t ws ops true B = false
-  | some F => superm t ws ops false F = true ∧ superm t ws ops true F = true ∧
-      ∀ B, superm t ws ops false B = true → superm t ws ops true B = true → B ∈ t.chain F
-
-theorem supermCond_fun (t : Tree) (ws : List Nat) (ops : List Op) (ph : Bool) :
-    (fun B => supermCond ws (run t ws ops).eqv ph ((run t ws ops).cum B)) = superm t ws ops ph := by
-  funext B; exact supermCond_run t ws ops ph B
-
-/-- `Round.finalized` is the paper's finalized block (any precommit set, tolerant or not). -/
+/-- `Round.finalized` is the paper's finalized block – for ANY precommit set (tolerant or not). -/
 theorem C20_finalized_eq_spec_partial (h : t.WF) (h0 : 0 < total ws) (ops : List Op)
     (hv : ValidOps t ops) (htol : tolerant ws ops false = true) :
-    IsFinalized t ws ops (run t ws ops).fin := by
-  have hco := coherent_run h h0 ops hv htol
-  have hg := ghost_run h h0 ops hv htol
-  rw [hco.1]
-  cases hgh : (run t ws ops).ghost with
-  | none =>
-    rw [(recompute_early t ws _ (Or.inr hgh)).1]
-    rw [hgh] at hg
-    intro B hB; rw [hg B] at hB; exact Bool.noConfusion hB
-  | some g =>
-    rw [hgh] at hg
-    have hcf : ¬ (run t ws ops).cur false < threshold (total ws) := by
-      intro hlt
-      rw [cur_run] at hlt
-      have := superm_false_of_cur t ws ops false hlt g
-      rw [hg.1] at this; exact Bool.noConfusion this
-    by_cases hct : (run t ws ops).cur true ≥ threshold (total ws)
-    · rw [(recompute_full t ws _ g hcf hgh hct).1]
-      unfold findAncestor
-      rw [superm_inGraph h0 htol hg.1]
-      simp only [if_true]
-      rw [supermCond_fun]
-      cases hf : (t.chain g).find? (superm t ws ops true) with
-      | none =>
-        intro B hB
-        have := List.find?_eq_none.1 hf B (hg.2 B hB)
-        simpa using this
-      | some F =>
-        obtain ⟨f1, f2, f3⟩ := chain_find_some h _ g F hf
-        exact ⟨superm_anc h f1 hg.1, f2, fun B hB1 hB2 => f3 B (hg.2 B hB1) hB2⟩
-    · have hlt : (run t ws ops).cur true < threshold (total ws) := by omega
-      rw [(recompute_short t ws _ g hcf hgh hlt).1]
-      intro B _
-      rw [cur_run] at hlt
-      exact superm_false_of_cur t ws ops true hlt B
+    (run t ws ops).fin = specFinalized t ws ops :=
+  IsFinalized_unique h (rel_finalized_eq_spec_partial h h0 ops hv htol) (specFinalized_isFinalized h h0 ops htol)
 
-/-! ## estimate and completable -/
-
-/-- precommit weight is at the threshold or still at most 2f (always true when total = 3f+1) -/
-def NoGap (ws : List Nat) (ops : List Op) : Prop :=
-  voteWeight ws ops true ≥ threshold (total ws) ∨ voteWeight ws ops true ≤ 2 * faulty ws
-
-/-- E of the paper relative to the prevote GHOST `g`: the last (deepest) block on the chain of `g` for which
-a precommit supermajority is possible -/
-def IsEstimate (t : Tree) (ws : List Nat) (ops : List Op) (g : Option Nat) (e : Option Nat) : Prop :=
-  match g, e with
-  | none, e => e = none
-  | some g, none => ∀ B, B ∈ t.chain g → possible t ws ops true B = false
-  | some g, some E => E ∈ t.chain g ∧ possible t ws ops true E = true ∧
-      ∀ B, B ∈ t.chain g → possible t ws ops true B = true → B ∈ t.chain E
-
-/-- completable of the paper: E is defined and (E ≠ g, or no child of g – a block of the tree or a block not
-seen yet – can possibly get a precommit supermajority) -/
-def SpecCompletable (t : Tree) (ws : List Nat) (ops : List Op) (g e : Option Nat) : Prop :=
-  ∃ G E, g = some G ∧ e = some E ∧
-    (E ≠ G ∨ (unseenImpossible ws ops = true ∧ ∀ c, c ∈ t.children G → possible t ws ops true c = false))
-
-theorem possible_fun (t : Tree) (ws : List Nat) (ops : List Op)
-    (htol : tolerant ws ops true = true) (hov : 2 * total ws < MOD) :
-    (fun B => possibleToPrecommit ws ((run t ws ops).cur true) (run t ws ops).eqv ((run t ws ops).cum B))
-      = possible t ws ops true := by
-  funext B; exact possible_run t ws ops htol hov B
-
-/-- below 2f of precommit weight every block is still possible -/
-theorem possible_of_small (t : Tree) (ws : List Nat) (ops : List Op)
-    (hs : voteWeight ws ops true ≤ 2 * faulty ws) (B : Nat) : possible t ws ops true B = true := by
-  unfold possible
-  have := voteWeight_split t ws ops true B
-  have := equivWeight_le_weightFor t ws ops true B
-  simp only [decide_eq_true_eq]
-  omega
-
-theorem two_faulty_lt_thr (h0 : 0 < total ws) : 2 * faulty ws < threshold (total ws) := by
-  have := three_faulty_lt h0
-  have := threshold_le (total ws)
-  unfold faulty
-  omega
-
-/-- `Round.estimate` is E of the paper (relative to the round's prevote GHOST, which is g(V) by
-`C20_ghost_eq_spec_partial`).
-Full statement without `NoGap`/precommit tolerance is false: `C20_estimate_shortcut_counterexample`. -/
+/-- `Round.estimate` is E of the paper.
+Full statement is false without `NoGap` (`C20_estimate_shortcut_counterexample`) and without precommit tolerance
+(`C20_estimate_intolerant_counterexample`). -/
 theorem C20_estimate_eq_spec_partial (h : t.WF) (h0 : 0 < total ws) (ops : List Op)
     (hv : ValidOps t ops) (htol : tolerant ws ops false = true) (htolc : tolerant ws ops true = true)
     (hgap : NoGap ws ops) (hov : 2 * total ws < MOD) :
-    IsEstimate t ws ops (run t ws ops).ghost (run t ws ops).est := by
-  have hco := coherent_run h h0 ops hv htol
-  have hg := ghost_run h h0 ops hv htol
-  rw [hco.2.1]
-  cases hgh : (run t ws ops).ghost with
-  | none =>
-    rw [(recompute_early t ws _ (Or.inr hgh)).2.1]
-    simp [IsEstimate]
-  | some g =>
-    rw [hgh] at hg
-    have hcf : ¬ (run t ws ops).cur false < threshold (total ws) := by
-      intro hlt
-      rw [cur_run] at hlt
-      have := superm_false_of_cur t ws ops false hlt g
-      rw [hg.1] at this; exact Bool.noConfusion this
-    by_cases hct : (run t ws ops).cur true ≥ threshold (total ws)
-    · rw [(recompute_full t ws _ g hcf hgh hct).2.1]
-      unfold findAncestor
-      rw [superm_inGraph h0 htol hg.1]
-      simp only [if_true]
-      rw [possible_fun t ws ops htolc hov]
-      cases hf : (t.chain g).find? (possible t ws ops true) with
-      | none =>
-        intro B hB
-        have := List.find?_eq_none.1 hf B hB
-        simpa using this
-      | some E => exact chain_find_some h _ g E hf
-    · have hlt : (run t ws ops).cur true < threshold (total ws) := by omega
-      rw [(recompute_short t ws _ g hcf hgh hlt).2.1]
-      rw [cur_run] at hlt
-      have hsmall : voteWeight ws ops true ≤ 2 * faulty ws := by
-        rcases hgap with hge | hle
-        · omega
-        · exact hle
-      exact ⟨t.mem_chain_self g, possible_of_small t ws ops hsmall g, fun B hB _ => hB⟩
+    (run t ws ops).est = specEstimate t ws ops := by
+  have h1 := rel_estimate_eq_spec_partial h h0 ops hv htol htolc hgap hov
+  rw [C20_ghost_eq_spec_partial h h0 ops hv htol] at h1
+  exact IsEstimate_unique h h1 (specEstimate_isEstimate h h0 ops htol)
 
-/-- one step of `descend` from a block without a good child stays there -/
-theorem descend_stay (t : Tree) (cum : Nat → Mask) (cond : Mask → Bool) (f g : Nat)
-    (hno : ∀ c, c ∈ t.children g → good cum cond c = false) : descend t cum cond f g = g := by
-  cases f with
-  | zero => rfl
-  | succ f =>
-    have : (t.children g).find? (fun c => inGraph cum c && cond (cum c)) = none := by
-      rw [List.find?_eq_none]
-      intro c hc
-      have := hno c hc
-      simpa [good] using this
-    simp only [descend, this]
-
-/-- `Round.completable` is the paper's completability.
-Full statement without `NoGap`/precommit tolerance is false: `C20_estimate_shortcut_counterexample`. -/
+/-- `Round.completable` is the paper's completability (same excluded regions as the estimate). -/
 theorem C20_completable_eq_spec_partial (h : t.WF) (h0 : 0 < total ws) (ops : List Op)
     (hv : ValidOps t ops) (htol : tolerant ws ops false = true) (htolc : tolerant ws ops true = true)
     (hgap : NoGap ws ops) (hov : 2 * total ws < MOD) :
-    (run t ws ops).compl = true ↔ SpecCompletable t ws ops (run t ws ops).ghost (run t ws ops).est := by
-  have hco := coherent_run h h0 ops hv htol
-  have hg := ghost_run h h0 ops hv htol
-  have hest := C20_estimate_eq_spec_partial h h0 ops hv htol htolc hgap hov
-  rw [hco.2.2]
-  rw [hco.2.1] at hest ⊢
-  cases hgh : (run t ws ops).ghost with
-  | none =>
-    rw [(recompute_early t ws _ (Or.inr hgh)).2.2]
-    constructor
-    · intro hf; exact Bool.noConfusion hf
-    · rintro ⟨G, E, hG, _⟩; cases hG
-  | some g =>
-    rw [hgh] at hg hest
-    have hcf : ¬ (run t ws ops).cur false < threshold (total ws) := by
-      intro hlt
-      rw [cur_run] at hlt
-      have := superm_false_of_cur t ws ops false hlt g
-      rw [hg.1] at this; exact Bool.noConfusion this
-    by_cases hct : (run t ws ops).cur true ≥ threshold (total ws)
-    · obtain ⟨_, r2, r3⟩ := recompute_full t ws _ g hcf hgh hct
-      rw [r3]
-      rw [r2] at hest ⊢
-      have hunseen : unseenImpossible ws ops = true := by
-        unfold unseenImpossible
-        rw [cur_run] at hct
-        have := two_faulty_lt_thr h0
-        simp only [decide_eq_true_eq]; omega
-      cases hE : findAncestor t (run t ws ops).cum g
-          (possibleToPrecommit ws ((run t ws ops).cur true) (run t ws ops).eqv) with
-      | none =>
-        constructor
-        · intro hf; exact Bool.noConfusion hf
-        · rintro ⟨G, E, _, hE', _⟩; cases hE'
-      | some E =>
-        rw [hE] at hest
-        dsimp only
-        by_cases hEg : E = g
-        · subst hEg
-          -- estimate = ghost: completable iff the possible-GHOST from it is the ghost itself
-          have hstart : ghostStart (run t ws ops).cum (some E) = E := by
-            simp [ghostStart, superm_inGraph h0 htol hg.1]
-          have hcondE : possibleToPrecommit ws ((run t ws ops).cur true) (run t ws ops).eqv
-              ((run t ws ops).cum E) = true := by
-            rw [possible_run t ws ops htolc hov]; exact hest.2.1
-          have hgoodiff : ∀ c, c ∈ t.children E →
-              (good (run t ws ops).cum (possibleToPrecommit ws ((run t ws ops).cur true) (run t ws ops).eqv) c
-                = false ↔ possible t ws ops true c = false) := by
-            intro c _
-            unfold good
-            rw [possible_run t ws ops htolc hov]
-            cases hin : inGraph (run t ws ops).cum c
-            · simp only [Bool.false_and, true_iff]
-              -- not in the graph: everything that voted and does not equivocate is against it
-              have hw := against_of_not_inGraph t ws ops true hin
-              have hs := voteWeight_split t ws ops true c
-              unfold possible
-              rw [cur_run] at hct
-              have := two_faulty_lt_thr h0
-              simp only [decide_eq_false_iff_not]
-              omega
-            · simp
-          have hfg := findGhost_eq t (run t ws ops).cum (some E)
-            (possibleToPrecommit ws ((run t ws ops).cur true) (run t ws ops).eqv)
-          rw [hstart, hcondE] at hfg
-          simp only [if_true] at hfg
-          rw [hfg]
-          simp only [bne_self_eq_false, Bool.false_or]
-          constructor
-          · intro hx
-            have hD : descend t (run t ws ops).cum
-                (possibleToPrecommit ws ((run t ws ops).cur true) (run t ws ops).eqv) t.size E = E := by
-              simpa using hx
-            obtain ⟨_, _, d3⟩ := descend_spec h (run t ws ops).cum
-              (possibleToPrecommit ws ((run t ws ops).cur true) (run t ws ops).eqv) t.size E
-            rw [hD] at d3
-            refine ⟨E, E, rfl, rfl, Or.inr ⟨hunseen, ?_⟩⟩
-            intro c hc
-            exact (hgoodiff c hc).1 (d3 (by omega) c hc)
-          · rintro ⟨G, E', hG, hE', hor⟩
-            have hG' : G = E := (Option.some.inj hG).symm
-            have hE'' : E' = E := (Option.some.inj hE').symm
-            rw [hG', hE''] at hor
-            rcases hor with hne | ⟨_, hall⟩
-            · exact absurd rfl hne
-            · have := descend_stay t (run t ws ops).cum
-                (possibleToPrecommit ws ((run t ws ops).cur true) (run t ws ops).eqv) t.size E
-                (fun c hc => (hgoodiff c hc).2 (hall c hc))
-              simp [this]
-        · have hne : (E != g) = true := by simp [hEg]
-          simp only [hne, Bool.true_or, true_iff]
-          exact ⟨g, E, rfl, rfl, Or.inl hEg⟩
-    · have hlt : (run t ws ops).cur true < threshold (total ws) := by omega
-      obtain ⟨_, r2, r3⟩ := recompute_short t ws _ g hcf hgh hlt
-      rw [r3, r2]
-      constructor
-      · intro hf; exact Bool.noConfusion hf
-      · rintro ⟨G, E, hG, hE, hor⟩
-        have hG' : G = g := (Option.some.inj hG).symm
-        have hE' : E = g := (Option.some.inj hE).symm
-        rw [hG', hE'] at hor
-        rcases hor with hne | ⟨hun, _⟩
-        · exact absurd rfl hne
-        · exfalso
-          rw [cur_run] at hlt
-          unfold unseenImpossible at hun
-          simp only [decide_eq_true_eq] at hun
-          rcases hgap with hge | hle <;> omega
+    (run t ws ops).compl = specCompletable t ws ops := by
+  have h1 := rel_completable_eq_spec_partial h h0 ops hv htol htolc hgap hov
+  rw [C20_ghost_eq_spec_partial h h0 ops hv htol,
+      C20_estimate_eq_spec_partial h h0 ops hv htol htolc hgap hov] at h1
+  exact Bool.eq_iff_iff.2 (h1.trans (specCompletable_iff t ws ops).symm)
 
-/-! ## derived state does not depend on the import order -/
+/-! ## the whole observable state is a function of the vote SET -/
 
-/-- For tolerant vote sets the GHOST, finalized block and estimate are determined by the SET of votes: two
-import histories that are permutations of each other (with any duplicates) satisfy the same specifications –
-and these specifications have at most one solution. -/
-theorem IsGhost_unique (h : t.WF) {ops : List Op} {ph : Bool} {a b : Option Nat}
-    (ha : IsGhost t ws ops ph a) (hb : IsGhost t ws ops ph b) : a = b := by
-  cases a with
-  | none =>
-    cases b with
-    | none => rfl
-    | some y => have := ha y; rw [hb.1] at this; exact Bool.noConfusion this
-  | some x =>
-    cases b with
-    | none => have := hb x; rw [ha.1] at this; exact Bool.noConfusion this
-    | some y => exact congrArg some (Tree.le_antisymm h (hb.2 x ha.1) (ha.2 y hb.1))
+theorem equivWeight_perm (ws : List Nat) {ops ops' : List Op} (hp : ops.Perm ops') (ph : Bool) :
+    equivWeight ws ops ph = equivWeight ws ops' ph :=
+  wsum_congr (fun v _ => isEquiv_perm hp ph v)
 
-theorem superm_perm (t : Tree) (ws : List Nat) {ops ops' : List Op} (hp : ops.Perm ops') (ph : Bool) (B : Nat) :
-    superm t ws ops ph B = superm t ws ops' ph B := by
-  unfold superm; rw [weightFor_perm t ws hp]
+theorem voteWeight_perm (ws : List Nat) {ops ops' : List Op} (hp : ops.Perm ops') (ph : Bool) :
+    voteWeight ws ops ph = voteWeight ws ops' ph :=
+  wsum_congr (fun v _ => hasVote_perm hp ph v)
 
-theorem C20_ghost_order_independent_partial (h : t.WF) (h0 : 0 < total ws) {ops ops' : List Op}
-    (hp : ops.Perm ops') (hv : ValidOps t ops) (htol : tolerant ws ops false = true) :
-    (run t ws ops).ghost = (run t ws ops').ghost := by
+theorem possible_perm (t : Tree) (ws : List Nat) {ops ops' : List Op} (hp : ops.Perm ops') (ph : Bool) :
+    possible t ws ops ph = possible t ws ops' ph := by
+  funext B
+  unfold possible againstWeight
+  rw [equivWeight_perm ws hp]
+  have : wsum ws (fun v => hasVote ops ph v && !isEquiv ops ph v && !votesGE t ops ph v B)
+       = wsum ws (fun v => hasVote ops' ph v && !isEquiv ops' ph v && !votesGE t ops' ph v B) :=
+    wsum_congr (fun v _ => by rw [hasVote_perm hp, isEquiv_perm hp, votesGE_perm t hp])
+  rw [this]
+
+theorem superm_perm_fun (t : Tree) (ws : List Nat) {ops ops' : List Op} (hp : ops.Perm ops') (ph : Bool) :
+    superm t ws ops ph = superm t ws ops' ph := by
+  funext B; exact superm_perm t ws hp ph B
+
+/-- the paper definitions do not see the import order (no side condition) -/
+theorem C20_spec_order_independent (t : Tree) (ws : List Nat) {ops ops' : List Op} (hp : ops.Perm ops') :
+    (∀ ph, specGhost t ws ops ph = specGhost t ws ops' ph) ∧
+    specFinalized t ws ops = specFinalized t ws ops' ∧
+    specEstimate t ws ops = specEstimate t ws ops' ∧
+    specCompletable t ws ops = specCompletable t ws ops' := by
+  have hg : ∀ ph, specGhost t ws ops ph = specGhost t ws ops' ph := by
+    intro ph; unfold specGhost; rw [superm_perm_fun t ws hp]
+  have he : specEstimate t ws ops = specEstimate t ws ops' := by
+    unfold specEstimate; rw [hg false, possible_perm t ws hp]
+  refine ⟨hg, ?_, he, ?_⟩
+  · unfold specFinalized; rw [superm_perm_fun t ws hp false, superm_perm_fun t ws hp true]
+  · unfold specCompletable unseenImpossible
+    rw [hg false, he, possible_perm t ws hp, voteWeight_perm ws hp]
+
+/-- State after importing a list = state after importing any permutation of it (prevote GHOST, finalized,
+estimate, completable) – on the region where the round follows the definitions. -/
+theorem C20_state_order_independent_partial (h : t.WF) (h0 : 0 < total ws) {ops ops' : List Op}
+    (hp : ops.Perm ops') (hv : ValidOps t ops) (htol : tolerant ws ops false = true)
+    (htolc : tolerant ws ops true = true) (hgap : NoGap ws ops) (hov : 2 * total ws < MOD) :
+    (run t ws ops).ghost = (run t ws ops').ghost ∧ (run t ws ops).fin = (run t ws ops').fin ∧
+    (run t ws ops).est = (run t ws ops').est ∧ (run t ws ops).compl = (run t ws ops').compl := by
   have hv' : ValidOps t ops' := fun o ho => hv o (hp.mem_iff.2 ho)
   have htol' : tolerant ws ops' false = true := by
-    unfold tolerant equivWeight at *
-    rw [← wsum_congr (fun v _ => isEquiv_perm hp false v)]; exact htol
-  have g1 := ghost_run h h0 ops hv htol
-  have g2 := ghost_run h h0 ops' hv' htol'
-  have g2' : IsGhost t ws ops false (run t ws ops').ghost := by
-    cases hg : (run t ws ops').ghost with
-    | none => rw [hg] at g2; intro B; rw [superm_perm t ws hp]; exact g2 B
-    | some g =>
-      rw [hg] at g2
-      exact ⟨by rw [superm_perm t ws hp]; exact g2.1,
-             fun B hB => g2.2 B (by rw [← superm_perm t ws hp]; exact hB)⟩
-  exact IsGhost_unique h g1 g2'
+    unfold tolerant at *; rw [← equivWeight_perm ws hp]; exact htol
+  have htolc' : tolerant ws ops' true = true := by
+    unfold tolerant at *; rw [← equivWeight_perm ws hp]; exact htolc
+  have hgap' : NoGap ws ops' := by
+    unfold NoGap at *; rw [← voteWeight_perm ws hp]; exact hgap
+  obtain ⟨s1, s2, s3, s4⟩ := C20_spec_order_independent t ws hp
+  refine ⟨?_, ?_, ?_, ?_⟩
+  · rw [C20_ghost_eq_spec_partial h h0 ops hv htol, C20_ghost_eq_spec_partial h h0 ops' hv' htol', s1]
+  · rw [C20_finalized_eq_spec_partial h h0 ops hv htol, C20_finalized_eq_spec_partial h h0 ops' hv' htol', s2]
+  · rw [C20_estimate_eq_spec_partial h h0 ops hv htol htolc hgap hov,
+        C20_estimate_eq_spec_partial h h0 ops' hv' htol' htolc' hgap' hov, s3]
+  · rw [C20_completable_eq_spec_partial h h0 ops hv htol htolc hgap hov,
+        C20_completable_eq_spec_partial h h0 ops' hv' htol' htolc' hgap' hov, s4]
 
-/-! ## the excluded regions are really excluded (counterexamples) and the hypotheses are satisfiable -/
-
-namespace Ex
-def tFork : Tree := ⟨[0, 0, 0]⟩            -- base 0 with two children 1 and 2
-def ws4 : List Nat := [1, 1, 1, 1]          -- total 4, f = 1, threshold 3
-def ws5 : List Nat := [1, 1, 1, 1, 1]       -- total 5, f = 1, threshold 4 (not 3f+1)
-def pv (v b : Nat) : Op := ⟨false, v, ⟨b, 0⟩⟩
-def pc (v b : Nat) : Op := ⟨true, v, ⟨b, 0⟩⟩
-/-- voters 0 and 1 prevote both 1 and 2 (equivocating weight 2 > f), voter 2 prevotes 1, voter 3 prevotes 2 -/
-def opsX : List Op := [pv 0 1, pv 0 2, pv 1 1, pv 1 2, pv 2 1, pv 3 2]
-def opsY : List Op := [pv 0 1, pv 0 2, pv 1 1, pv 1 2, pv 3 2, pv 2 1]
-/-- 4 of 5 prevote block 1, then 3 of 5 precommit its sibling 2 -/
-def opsGap : List Op := [pv 0 1, pv 1 1, pv 2 1, pv 3 1, pc 0 2, pc 1 2, pc 2 2]
-/-- 3 of 4 prevote block 1; voters 0, 1 double-precommit 1 and 2; voters 2, 3 precommit the base -/
-def opsWrap : List Op := [pv 0 1, pv 1 1, pv 2 1, pc 0 1, pc 0 2, pc 1 1, pc 1 2, pc 2 0, pc 3 0]
-/-- a tolerant history with a tolerated equivocation in each phase, duplicates and a non-voter -/
-def tDeep : Tree := ⟨[0, 0, 1, 1]⟩          -- 0 ← 1 ← {2, 3}
-def opsOk : List Op :=
-  [pv 0 2, pv 1 2, pv 9 3, pv 3 2, pv 3 3, pv 0 2, pv 2 3, pc 0 2, pc 1 1, pc 3 2, pc 3 0, pc 2 1, pc 3 1]
-
-theorem tFork_WF : tFork.WF := by
-  refine ⟨by decide, ?_⟩
-  intro b h1 h2
-  have : b = 1 ∨ b = 2 := by simp [tFork, Tree.size] at h2; omega
-  rcases this with rfl | rfl <;> decide
-
-theorem tDeep_WF : tDeep.WF := by
-  refine ⟨by decide, ?_⟩
-  intro b h1 h2
-  have : b = 1 ∨ b = 2 ∨ b = 3 := by simp [tDeep, Tree.size] at h2; omega
-  rcases this with rfl | rfl | rfl <;> decide
-end Ex
+/-! ## the excluded regions are really excluded, and the hypotheses are satisfiable -/
 
 open Ex in
 /-- Outside the prevote-tolerant region the prevote GHOST depends on the import order: the same votes, two
@@ -455,68 +208,43 @@ orders, two different ghosts (both blocks have a supermajority: g(S) is not uniq
 theorem C20_ghost_intolerant_counterexample :
     tFork.WF ∧ 0 < total ws4 ∧ ValidOps tFork opsX ∧ opsX.Perm opsY ∧ tolerant ws4 opsX false = false ∧
     (run tFork ws4 opsX).ghost = some 1 ∧ (run tFork ws4 opsY).ghost = some 2 ∧
-    superm tFork ws4 opsX false 1 = true ∧ superm tFork ws4 opsX false 2 = true := by
-  refine ⟨tFork_WF, by decide, ?_, by decide, by decide, by decide, by decide, by decide, by decide⟩
-  intro o ho
-  have : o ∈ opsX := ho
-  revert o; decide
+    superm tFork ws4 opsX false 1 = true ∧ superm tFork ws4 opsX false 2 = true :=
+  rel_ghost_intolerant_counterexample
 
 open Ex in
-/-- Known finding `estimate-shortcut-below-threshold`: all hypotheses of `C20_estimate_eq_spec_partial` hold
-except `NoGap`; the round reports estimate = block 1 and not completable although block 1 can no longer get
-a precommit supermajority (3 of 5 precommitted its sibling, f = 1): the paper's E is the base and the round
-is completable. -/
+/-- Known finding `estimate-shortcut-below-threshold`: every hypothesis of `C20_estimate_eq_spec_partial` holds
+except `NoGap` (5 unit voters, 4 prevote block 1, 3 precommit its sibling): the round reports estimate = block 1
+and not completable, although block 1 can no longer get a precommit supermajority; the paper's E is the base and
+the round is completable. -/
 theorem C20_estimate_shortcut_counterexample :
     tFork.WF ∧ ValidOps tFork opsGap ∧ tolerant ws5 opsGap false = true ∧ tolerant ws5 opsGap true = true ∧
     ¬ NoGap ws5 opsGap ∧
-    (run tFork ws5 opsGap).ghost = some 1 ∧ (run tFork ws5 opsGap).est = some 1 ∧
-    (run tFork ws5 opsGap).compl = false ∧
-    possible tFork ws5 opsGap true 1 = false ∧ possible tFork ws5 opsGap true 0 = true ∧
-    ¬ IsEstimate tFork ws5 opsGap (run tFork ws5 opsGap).ghost (run tFork ws5 opsGap).est := by
-  have hest : (run tFork ws5 opsGap).est = some 1 := by decide
-  have hgh : (run tFork ws5 opsGap).ghost = some 1 := by decide
-  have hp : possible tFork ws5 opsGap true 1 = false := by decide
-  refine ⟨tFork_WF, ?_, by decide, by decide, ?_, hgh, hest, by decide, hp, by decide, ?_⟩
-  · intro o ho
-    have : o ∈ opsGap := ho
-    revert o; decide
-  · unfold NoGap; decide
-  · rw [hest, hgh]
-    intro hi
-    have := hi.2.1
-    rw [hp] at this; exact Bool.noConfusion this
+    (run tFork ws5 opsGap).est = some 1 ∧ specEstimate tFork ws5 opsGap = some 0 ∧
+    (run tFork ws5 opsGap).compl = false ∧ specCompletable tFork ws5 opsGap = true := by
+  obtain ⟨a, b, c, d, e, _, f, g, _⟩ := rel_estimate_shortcut_counterexample
+  exact ⟨a, b, c, d, e, f, by decide, g, by decide⟩
 
 open Ex in
-/-- Outside the precommit-tolerant region (equivocating precommit weight 2 > f = 1) Go's unsigned
-`toleratedEquivocations - currentEquivocations` wraps around, every block counts as possible and the estimate
-stays at the prevote GHOST although 2 non-equivocating voters precommitted the base. -/
+/-- Outside the precommit-tolerant region (equivocating precommit weight 2 > f = 1) the unsigned subtraction
+wraps, every block counts as possible and the estimate stays at the prevote GHOST although two non-equivocating
+voters precommitted the base. -/
 theorem C20_estimate_intolerant_counterexample :
     tFork.WF ∧ ValidOps tFork opsWrap ∧ tolerant ws4 opsWrap false = true ∧ tolerant ws4 opsWrap true = false ∧
     NoGap ws4 opsWrap ∧
-    (run tFork ws4 opsWrap).ghost = some 1 ∧ (run tFork ws4 opsWrap).est = some 1 ∧
-    possible tFork ws4 opsWrap true 1 = false := by
-  refine ⟨tFork_WF, ?_, by decide, by decide, ?_, by decide, by decide, by decide⟩
-  · intro o ho
-    have : o ∈ opsWrap := ho
-    revert o; decide
-  · unfold NoGap; decide
+    (run tFork ws4 opsWrap).est = some 1 ∧ specEstimate tFork ws4 opsWrap = some 0 := by
+  obtain ⟨a, b, c, d, e, _, f, _⟩ := rel_estimate_intolerant_counterexample
+  exact ⟨a, b, c, d, e, f, by decide⟩
 
 open Ex in
-/-- The hypotheses of the theorems are satisfiable by a non-trivial history (a tolerated equivocation in each
-phase, a duplicate, a vote of a non-voter, thresholds reached in both phases), and on it the round reports
-ghost 2, finalized 1, estimate 1 (block 2 can no longer get a
-precommit supermajority), completable. -/
+/-- The hypotheses are satisfiable by a non-trivial history (a tolerated equivocation in each phase, a duplicate,
+a third vote of an equivocator, a vote of a non-voter, thresholds reached in both phases); on it the round
+reports ghost 2, finalized 1, estimate 1, completable. -/
 theorem C20_hypotheses_satisfiable :
     tDeep.WF ∧ 0 < total ws4 ∧ ValidOps tDeep opsOk ∧ tolerant ws4 opsOk false = true ∧
     tolerant ws4 opsOk true = true ∧ NoGap ws4 opsOk ∧ 2 * total ws4 < MOD ∧
     equivWeight ws4 opsOk false = 1 ∧ equivWeight ws4 opsOk true = 1 ∧
     (run tDeep ws4 opsOk).ghost = some 2 ∧ (run tDeep ws4 opsOk).fin = some 1 ∧
-    (run tDeep ws4 opsOk).est = some 1 ∧ (run tDeep ws4 opsOk).compl = true := by
-  refine ⟨tDeep_WF, by decide, ?_, by decide, by decide, ?_, by decide, by decide, by decide, by decide,
-    by decide, by decide, by decide⟩
-  · intro o ho
-    have : o ∈ opsOk := ho
-    revert o; decide
-  · unfold NoGap; decide
+    (run tDeep ws4 opsOk).est = some 1 ∧ (run tDeep ws4 opsOk).compl = true :=
+  rel_hypotheses_satisfiable
 
 end Gossamer.C20
